@@ -818,14 +818,19 @@ impl MqttClientImpl {
     }
 
     fn compute_uniform_jitter_period(&self, max_nanos: u128) -> Duration {
+        // an empty range (zero period) has nothing to sample from; longer than u64 nanoseconds cannot be represented below
+        if max_nanos == 0 {
+            return Duration::ZERO;
+        }
+
         let mut rng = rand::thread_rng();
-        let uniform_nanos = rng.gen_range(0..max_nanos);
+        let uniform_nanos = rng.gen_range(0..max_nanos.min(u64::MAX as u128));
         Duration::from_nanos(uniform_nanos as u64)
     }
 
     pub(crate) fn advance_reconnect_period(&mut self) -> Duration {
         let reconnect_period = self.next_reconnect_period;
-        self.next_reconnect_period = self.clamp_reconnect_period(self.next_reconnect_period * 2);
+        self.next_reconnect_period = self.clamp_reconnect_period(self.next_reconnect_period.saturating_mul(2));
 
         match self.reconnect_options.reconnect_period_jitter {
             ExponentialBackoffJitterType::None => {
